@@ -205,3 +205,25 @@ def write_evidence(pid, tier, level, coverage, wall_s, violations, assumptions):
         json.dump(ev, f, indent=1, default=str)
     os.replace(tmp, os.path.join(EVID, pid + '.json'))
     return ev
+
+
+def _call_indexed(a):
+    fn, i, x = a
+    return i, fn(x)
+
+
+def pmap(pool, fn, tasks, chunksize=1, stall_s=2400):
+    """pool.map that cannot hang: multiprocessing.Pool never notices a worker that was killed while it held a task (e.g. by the kernel for
+    lack of memory) and waits for its result for ever.  Results are collected as they arrive; if none arrives for `stall_s` seconds the run
+    ends as a machinery failure (exit status 2), never as a verdict."""
+    import multiprocessing as mp
+    tasks = list(tasks)
+    out = [None] * len(tasks)
+    it = pool.imap_unordered(_call_indexed, [(fn, i, x) for i, x in enumerate(tasks)], chunksize=chunksize)
+    for _ in range(len(tasks)):
+        try:
+            i, r = it.next(timeout=stall_s)
+        except mp.TimeoutError:
+            raise MachineryError(f'no result from the worker pool for {stall_s} s: a worker process was probably killed (out of memory?)')
+        out[i] = r
+    return out
